@@ -45,6 +45,7 @@ namespace bxdecay0 {
 
   void Yb170low(i_random & prng_, event & event_, const int levelkev_)
   {
+    BXDECAY0_VERIF_SCOPE("scheme:Yb170low", levelkev_);
     // Subroutine describes the deexcitation process in Yb170 nucleus
     // after 2b-decay of Er170 to ground and excited 0+ and 2+ levels
     // of Yb170 (NNDC site on 04.02.2018, NDS 96(2002)611).
